@@ -175,6 +175,63 @@ static void do_load (char *mode)
   _dbus_message_loader_unref (l);
 }
 
+/* loadf <nfds> <chunk> [<chunk> ...] : the socket transport's reading loop with descriptors: <nfds> descriptors are
+ * handed to the loader with the first read, every read honours the limit given by _dbus_message_loader_get_buffer and
+ * reading stops at corruption (the transport disconnects); prints the limits asked for and whether a limit of 0 stalled it */
+#include <fcntl.h>
+static void do_loadf (char *nfds_s)
+{
+  DBusMessageLoader *l = _dbus_message_loader_new ();
+  char *tok; int nfds = atoi (nfds_s); int first = 1, stalled = 0, stop = 0, nreads = 0;
+  char *reads = NULL; size_t rp = 0; FILE *rf = open_memstream (&reads, &rp);
+  if (l == NULL) abort ();
+  if (rf == NULL) abort ();
+  while (!stop && (tok = strtok (NULL, " ")) != NULL)
+    {
+      int n; unsigned char *b = unhex (tok, &n); DBusString *buf; int off = 0;
+      while (off < n)
+        {
+          int max_to_read = n; int take; dbus_bool_t may_fds = FALSE;
+          if (_dbus_message_loader_get_is_corrupted (l)) { stop = 1; break; }
+          _dbus_message_loader_get_buffer (l, &buf, &max_to_read, &may_fds);
+          fprintf (rf, "%s%d:%d", nreads ? "," : "", max_to_read, may_fds ? 1 : 0);
+          nreads++;
+          take = n - off; if (take > max_to_read) take = max_to_read;
+          if (first && nfds > 0 && may_fds)
+            {
+              /* as do_reading: descriptors are collected between get_buffer and return_buffer */
+              int *fds; unsigned max_fds; int i;
+              if (!_dbus_message_loader_get_unix_fds (l, &fds, &max_fds)) abort ();
+              for (i = 0; i < nfds && (unsigned) i < max_fds; i++) fds[i] = open ("/dev/null", O_RDONLY | O_CLOEXEC);
+              _dbus_message_loader_return_unix_fds (l, fds, i);
+            }
+          if (take > 0 && !_dbus_string_append_len (buf, (const char *) b + off, take)) abort ();
+          _dbus_message_loader_return_buffer (l, buf);
+          if (take <= 0) { stalled = 1; stop = 1; break; }
+          first = 0;
+          if (!_dbus_message_loader_queue_messages (l)) abort ();
+          off += take;
+        }
+      free (b);
+    }
+  {
+    DBusMessage *m; int cnt = 0;
+    dbus_bool_t corrupted = _dbus_message_loader_get_is_corrupted (l);
+    fclose (rf);
+    printf ("corrupted=%d stalled=%d reads=%s msgs=", corrupted ? 1 : 0, stalled, nreads ? reads : "-");
+    free (reads);
+    while ((m = _dbus_message_loader_pop_message (l)) != NULL)
+      {
+        if (cnt++) putchar ('|');
+        put_marshalled (m);
+        dbus_message_unref (m);
+      }
+    if (cnt == 0) putchar ('-');
+    printf ("\n");
+  }
+  _dbus_message_loader_unref (l);
+}
+
 static void do_demarshal (const char *hex)
 {
   int n; unsigned char *b = unhex (hex, &n);
@@ -334,6 +391,7 @@ int main (void)
       else if (!strcmp (cmd, "utf8")) do_utf8 (a1);
       else if (!strcmp (cmd, "sig")) do_sig (a1);
       else if (!strcmp (cmd, "load")) do_load (a1);
+      else if (!strcmp (cmd, "loadf")) do_loadf (a1);
       else if (!strcmp (cmd, "demarshal")) do_demarshal (a1);
       else if (!strcmp (cmd, "swap")) do_swap (a1);
       else if (!strcmp (cmd, "edit")) do_edit (a1);
